@@ -708,6 +708,7 @@ class World:
         self.tok_cache = {}
         SimCFuture.kernel = kernel
         SimMutex.kernel = kernel
+        kernel.scrub = str(self.rundir)
 
     # --- names, pids
     def next_name(self, prefix):
